@@ -96,6 +96,16 @@ class FunctionUnit(Unit):
         c = self.contract
         ex = c.load()
         self.extracted = ex
+        # a decorator replaces the function by whatever it returns (a memo table, a wrapper, a registration): the body alone
+        # is then not what a caller runs.  Only decorators that leave the body's meaning alone pass, plus those a contract
+        # names because its clauses account for them (`accepted_decorators`)
+        import ast
+        ok = {"property", "staticmethod", "classmethod", "abstractmethod"} | set(getattr(c, "accepted_decorators", ()))
+        for d in getattr(ex.node, "decorator_list", []):
+            txt = ast.unparse(d)
+            if txt not in ok and not txt.endswith(".setter"):
+                raise Unsupported("%s is decorated with @%s: the contract is stated for the undecorated body"
+                                  % (ex.qualname if hasattr(ex, "qualname") else self.label, txt))
         eng = Engine(ex.node, c)
         self.engine = eng
         obs = eng.run()
